@@ -261,6 +261,15 @@ impl Shared {
                 let mut s = self.m.lock().unwrap();
                 s.note(format!("T{me} state f{frame} {tag}"));
                 let was = s.frame_state.insert(*frame, tag);
+                // a composite execution has no RenderEnd event of its own: it ends when its thread
+                // stores the result (Blended / ErrTaken) through done_render
+                if *tag != "Rendering" {
+                    if let Some(v) = s.open.get_mut(frame) {
+                        if let Some(p) = v.iter().rposition(|&t| t == me) {
+                            v.remove(p);
+                        }
+                    }
+                }
                 if *tag == "Rendering" && was != Some("Rendering") {
                     s.rendering_frames += 1;
                 } else if *tag != "Rendering" && was == Some("Rendering") {
